@@ -850,18 +850,33 @@ fn shake_1(expression: Expression) -> Expression {
                         );
                         regex.push(expression);
                     } else {
-                        let expression = Expression::Search(
-                            Search::RegexSet(
-                                RegexSetBuilder::new(patterns)
-                                    .case_insensitive(insensitive)
-                                    .build()
-                                    .expect("could not build regex set"),
-                                insensitive,
-                            ),
-                            field,
-                            cast,
-                        );
-                        regex_set.push(expression);
+                        match RegexSetBuilder::new(&patterns)
+                            .case_insensitive(insensitive)
+                            .build()
+                        {
+                            Ok(set) => regex_set.push(Expression::Search(
+                                Search::RegexSet(set, insensitive),
+                                field,
+                                cast,
+                            )),
+                            // NOTE: The set can exceed the size limit although every regex compiled on
+                            // its own, in which case they are kept as separate searches.
+                            Err(_) => {
+                                for pattern in patterns {
+                                    regex.push(Expression::Search(
+                                        Search::Regex(
+                                            RegexBuilder::new(&pattern)
+                                                .case_insensitive(insensitive)
+                                                .build()
+                                                .expect("could not build regex"),
+                                            insensitive,
+                                        ),
+                                        field.clone(),
+                                        cast,
+                                    ));
+                                }
+                            }
+                        }
                     }
                 }
 
